@@ -242,7 +242,7 @@ func idGated(rec *trace.Recorder, dir string, rng *rand.Rand, h int) {
 	}
 	defer func() { index.VerifGate = nil }()
 	run := &idRun{rec: rec, db: db, dir: dir, known: map[idKey]bool{}}
-	scenario := []string{"recheck-mem", "recheck-disk", "stale-cache", "random", "schema-flush"}[h%5]
+	scenario := []string{"recheck-mem", "recheck-disk", "stale-cache", "random", "schema-flush", "schema-stale"}[h%6]
 	rec.Reset(trace.F{"mode": "gated", "scenario": scenario, "h": h})
 	// a persisted base so that buckets exist on disk
 	base, _ := run.genMetric("main", "base")
@@ -288,6 +288,26 @@ func idGated(rec *trace.Recorder, dir string, rng *rand.Rand, h int) {
 		run.genTagValue("main", kid, "y")
 		run.flush()
 		close(release)
+	case "schema-stale":
+		// bg loaded the schema of `base` from kv and parks before it is cached / used; main adds a tag key and a
+		// field and two flushes persist them and drop the schema from memory; bg then continues with the
+		// outdated schema.  Every name must keep its id.
+		run.flush() // the base schema leaves memory
+		startBG("schemastore.loaded", func() { run.genTagKey("bg", base, "x") })
+		run.genTagKey("main", base, "y")
+		run.genField("main", base, "fy")
+		run.flush()
+		run.flush()
+		close(release)
+		<-done
+		run.genTagKey("main", base, "y")
+		run.genField("main", base, "fy")
+		run.genTagKey("main", base, "x")
+		run.flush()
+		run.flush()
+		run.lookupAll("main")
+		_ = db.Close()
+		return
 	case "schema-flush":
 		// the flush wrote the immutable schemas and parks before it marks them persisted; main adds a tag key
 		// and a field to a schema that is being flushed; after that flush and one more (the schema leaves memory)
